@@ -68,6 +68,18 @@ Theorem C13_refused_delete_not_in_model : forall strict cfg orc req over0 p pl,
 Proof. exact refused_delete_not_in_model. Qed.
 Print Assumptions C13_refused_delete_not_in_model.
 
+(* every delete of an accepted Set names a model path or an ancestor of one by whole elements *)
+Theorem C13_accepted_delete_in_model : forall strict cfg orc req t over0 p pl,
+  set_resolve strict cfg orc req = Ok t -> get_overrides (r_ext req) = Ok over0 -> In (RDel p) (ops_of req) ->
+  resolve_target cfg over0 (etgt (r_prefix req) (RDel p)) = Ok pl ->
+  let path := effective_path (r_prefix req) p in
+  (exists e, rw_lookup (pl_rw pl) (anonymize_path_indices path) = Some e) \/
+  (exists e, In e (pl_rw pl) /\
+     (remove_path_indices (rw_path e) = delete_search_key path \/
+      exists r, remove_path_indices (rw_path e) = trim_slash (delete_search_key path) ++ [c_slash] ++ r)).
+Proof. exact accepted_delete_in_model. Qed.
+Print Assumptions C13_accepted_delete_in_model.
+
 Theorem C13_refused_delete_bad_index_value : forall strict cfg orc req over0 p pl n v,
   get_overrides (r_ext req) = Ok over0 -> In (RDel p) (ops_of req) ->
   resolve_target cfg over0 (etgt (r_prefix req) (RDel p)) = Ok pl ->
